@@ -305,6 +305,11 @@ def count_obligations(pid, contracts, clause_tab):
                     k += 2    # established on entry + preserved by the body
                 elif cl['section'] == 'decreases' and mine(cl):
                     k += 1
+        # assertions of proof blocks that carry a property tag (`assert(...); // [C04] #name`)
+        for ptxt in c.get('proofs', []):
+            for mt in re.finditer(r'//\s*\[([C0-9 ]+)\]\s*#[\w-]+', ptxt):
+                if pid in mt.group(1).split():
+                    k += 1
         # one bundled obligation for everything Verus generates by itself in the body: callee
         # preconditions, unwrap/expect, unreachable!, assert!, overflow, indexing
         if pid == 'C01' or 'C01' not in c['props']:
@@ -577,7 +582,8 @@ def run_check(pid, tier, seed, scratch, t0):
             'obligation_counting_rule': 'per function under contract: each ensures/decreases clause, each loop invariant '
                 'clause twice (entry, preservation), each loop decreases, plus one bundled obligation for the checks Verus '
                 'generates by itself in the body (callee preconditions, unwrap/expect, unreachable!, assert!, overflow, '
-                'indexing); the bundled one is counted under C01 when the function is routed to C01',
+                'indexing); the bundled one is counted under C01 when the function is routed to C01; a tagged assertion of a '
+                'proof block counts once',
             'functions_under_contract': sorted(set(under_contract)),
             'obligations_per_function': per_fn_all,
             'functions_not_under_contract_in_these_units': len(external),
